@@ -37,7 +37,7 @@ TOLERANCES = {
     "unit vector": "1e-12",
 }
 REQUIRED_LABELS = ["beam:flux:clamp", "beam:flux:diverging", "beam:flux:nonuniform", "beam:flux:no-stopping", "beam:flux:nested-nodes",
-                   "beam:flux:4-node-minimum", "beam:flux:neutral-before-ions", "beam:flux:explicit-calculate", "beam:flux:two-beams"]
+                   "beam:flux:4-node-minimum", "beam:flux:neutral-before-ions", "beam:flux:explicit-calculate", "beam:flux:two-beams", "beam:flux:zero-gap-between-lobes"]
 
 AMU, E = K.atomic_mass, K.e
 BEAM_ELEMENTS = ["hydrogen", "deuterium", "tritium", "helium"]
@@ -103,6 +103,9 @@ def strategy(draw):
         "pnode": draw(st.one_of(st.none(), st.none(), st.tuples(st.lists(st.floats(-1.0, 1.0), min_size=3, max_size=3),
                                                                  st.lists(st.sampled_from([0.0, 45.0, -120.0]), min_size=3, max_size=3)))),
         "zs": [draw(st.floats(0.0, 1.0)) for _ in range(5)],
+        # hollow plasma: every density is multiplied by max(0, sin(k.r + ph))^2 - regions of exactly zero density between lobes
+        "hollow": draw(st.one_of(st.none(), st.none(), st.fixed_dictionaries({
+            "k": st.lists(st.floats(-12.0, 12.0), min_size=3, max_size=3), "ph": st.floats(0, 6.28)}))),
         # a second beam in the same world, fed by the same plasma (interference / repeat relations)
         "beam2": draw(st.one_of(st.none(), st.fixed_dictionaries({
             "energy": st.floats(1e3, 1e5), "power": st.floats(1e3, 5e6), "bel": st.sampled_from(BEAM_ELEMENTS),
@@ -158,7 +161,8 @@ def stop_fn(s):
     s0, a, b, c = s["s0"], s["se"], s["sn"], s["st"]
     if s0 == 0.0:
         return lambda e, n, t: 0.0
-    return lambda e, n, t: s0 * (e / 5e4) ** a * (n / 1e19) ** b * (t / 100.0) ** c
+    # like the provider's rates (C07): zero for a non-positive argument (a hollow plasma has n = 0 somewhere)
+    return lambda e, n, t: (s0 * (e / 5e4) ** a * (n / 1e19) ** b * (t / 100.0) ** c) if (e > 0 and n > 0 and t > 0) else 0.0
 
 
 class MockData(AtomicData):
@@ -182,6 +186,9 @@ def build(case):
         name, q = IONS[s["ion"]]
         el = getattr(EL, name)
         nf, tf, vf = scalar_profile(s["n"]), scalar_profile(s["t"]), scalar_profile(s["vprof"])
+        if case.get("hollow"):
+            hk, hp = case["hollow"]["k"], case["hollow"]["ph"]
+            nf = (lambda x, y, z, nf=nf: nf(x, y, z) * max(0.0, math.sin(hk[0] * x + hk[1] * y + hk[2] * z + hp)) ** 2)
         v0 = s["v"]
         velf = (lambda x, y, z, vf=vf, v0=v0: Vector3D(v0[0] * vf(x, y, z), v0[1] * vf(x, y, z), v0[2] * vf(x, y, z)))
         comp.append(Species(el, q, Maxwellian(nf, tf, velf, el.atomic_weight * AMU)))
@@ -369,6 +376,12 @@ def run(case, ctx):
         ctx.label("flux:nonuniform")
     if not stopping:
         ctx.label("flux:no-stopping")
+    if case.get("hollow") and stopping:
+        sv = [S(z) for z in np.linspace(0, L, nb)]
+        pos = [i for i, v_ in enumerate(sv) if v_ > 0]
+        if pos and any(v_ == 0 for v_ in sv[pos[0]:pos[-1]]):
+            ctx.label("flux:zero-gap-between-lobes")
+        ctx.label("flux:hollow")
 
     # ---- on-axis density never increases; zero outside [0, L]
     zz = np.linspace(0, L, 257)
@@ -414,6 +427,17 @@ def run(case, ctx):
             dt = beam.direction(px * sig, py * sig, zt)
         lt = math.sqrt(dt.x ** 2 + dt.y ** 2 + dt.z ** 2)
         ctx.check(abs(lt - 1) <= 1e-12 and dt.z > 0, "direction-unit", lambda: "direction %r at z=%r" % (dt, zt))
+    # results handed out earlier stay what they were: directions at several points are collected first and read afterwards
+    kp = [(px * sig * (0.3 + 0.2 * i), py * sig * (1.0 - 0.15 * i), L * u) for i, u in enumerate(case["zs"])] + [(0.0, 0.0, 0.5 * L)]
+    with ctx.cut("Beam.direction"):
+        kept, at_call = [], []
+        for p_ in kp:
+            dv = beam.direction(*p_)
+            kept.append(dv)
+            at_call.append((dv.x, dv.y, dv.z))
+    later = [(dv.x, dv.y, dv.z) for dv in kept]
+    ctx.check(later == at_call, "direction-kept", lambda: "direction vectors returned earlier changed after later calls: %r at the call, "
+              "%r afterwards (points %r)" % (at_call, later, kp))
     x0, y0, z0, z1 = px * sx, py * sy, z, L
 
     def sxy(zc):
